@@ -51,12 +51,12 @@ class C16(Plugin):
                 for _ in range(rng.randint(0, 4)):
                     code = rng.choice(codes) if rng.random() < 0.9 else rng.choice(["bogus-code", "", "eof-in-x"])
                     need = sorted(set(re.findall(r"%\((\w+)\)", E.get(code, ""))))
-                    keys = list(need)
+                    keys = [[k, rng.random() < 0.5] for k in need]
                     r = rng.random()
                     if r < 0.15 and keys:
                         keys.pop(rng.randrange(len(keys)))
                     elif r < 0.3:
-                        keys.append("extra")
+                        keys.append(["extra", False])
                     calls.append([code, keys])
                 yield {"k": 0, "strict": rng.randint(0, 1), "calls": calls}
             else:
@@ -80,14 +80,14 @@ class C16(Plugin):
             ex = []
             for code, keys in case["calls"]:
                 try:
-                    p.parseError(code, {k: 1 for k in keys})
+                    p.parseError(code, {k: (7 if i else "v") for k, i in keys})
                 except ParseError:
                     ex = [1, [code, keys]]
                     break
-                except KeyError:
+                except (KeyError, TypeError):
                     ex = [2, [code, keys]]
                     break
-            return [[[c, sorted(d)] if False else [c, list(d)] for (_, c, d) in p.errors], ex]
+            return [[[c, [[k, isinstance(v, int)] for k, v in d.items()]] for (_, c, d) in p.errors], ex]
         src, frag = case["src"], case["frag"]
         p = html5lib.HTMLParser()
         (p.parseFragment if frag else p.parse)(src)
